@@ -115,6 +115,13 @@ def check_map_encoder(ctx, ty, emit, extras_field, rules=("R-1", "R-2", "R-5", "
         ctx.ob(R5, "extras-in-order:%s" % ty, ok,
                "the extras of %s are emitted as (label, value) for each element of `%s` in list order, value untouched" % (ty, extras_field),
                where=f.where(le["bb"]), detail=det, sample=det)
+    # the encoder may not reorder / edit its own fields before emitting them; the one allowed in-place operation is taking
+    # the single counter-signature out of its list (remove(0) under len == 1)
+    bad = [m for m in me.self_mutations
+           if not (m[0] == "counter_signatures" and m[1] == codec.VEC_REMOVE and m[2] == ["0"])]
+    ctx.ob(R5, "fields-not-mutated:%s" % ty, not bad,
+           "%s::to_cbor_value does not sort, reverse, truncate or otherwise mutate a field before emitting it" % ty, where=f.span,
+           detail={"mutations": [(m[0], m[1]) for m in bad]})
     allf = prog.struct_fields(ty) or []
     emitted = sorted({e["field"] for e in typed if e.get("field")} | ({extras_field} if loops else set()))
     ctx.ob(R6, "coverage:%s" % ty, sorted(allf) == emitted, "every field of %s is emitted by its encoder" % ty,
@@ -136,6 +143,15 @@ def check(ctx):
         check_array_encoder(ctx, ty, STRUCTS[ty])
     check_map_encoder(ctx, "header::Header", HEADER_EMIT, HEADER_EXTRAS)
     check_map_encoder(ctx, "key::CoseKey", KEY_EMIT, KEY_EXTRAS)
+    # CWT claims set, timestamps and KDF structures: the same encoder rules (recognisers shared with C18)
+    from rules import c18
+    from spec.rfc8152 import KDF_STRUCTS
+    from spec.rfc8392 import CLAIMS_EMIT, CLAIMS_EXTRAS
+    check_map_encoder(ctx, "cwt::ClaimsSet", CLAIMS_EMIT, CLAIMS_EXTRAS)
+    c18.timestamp_encode(ctx, "R-1")
+    for ty in ("context::PartyInfo", "context::SuppPubInfo"):
+        check_array_encoder(ctx, ty, KDF_STRUCTS[ty])
+    c18.kdf_encoder(ctx, "R-1")
     ctx.floor("R-1", "encoders analysed", len(MESSAGE_TYPES) + 2, 10)
 
     # ---- R-3 emptiness and the protected bstr ---------------------------------------------------------------
